@@ -198,6 +198,19 @@ impl InMemoryStoreInner {
         // header range is already internally verified against itself in `P2p::get_unverified_header_ranges`
         self.verify_against_neighbours(prev_exists.then_some(head), next_exists.then_some(tail))?;
 
+        // Check all the hashes upfront, so that a rejected batch leaves the store untouched.
+        let new_headers = headers.as_ref();
+        for (i, header) in new_headers.iter().enumerate() {
+            let hash = header.hash();
+
+            if self.headers.contains_key(&hash)
+                || new_headers[..i].iter().any(|other| other.hash() == hash)
+            {
+                // TODO: Remove this when we implement type-safe validation on insertion.
+                return Err(StoreInsertionError::HashExists(hash).into());
+            }
+        }
+
         for header in headers.into_iter() {
             let hash = header.hash();
             let height = header.height();
